@@ -1,3 +1,4 @@
 import TinyFlux.Audit.Tool
 import TinyFlux.Props.C02
+import TinyFlux.Props.C02State
 #audit TinyFlux.Props.C02
